@@ -33,10 +33,11 @@ type C16Sc struct {
 	Second         bool      `json:"second_shutdown,omitempty"`
 	AcceptLatePM   int       `json:"accept_late_pm,omitempty"`
 	Chunk          int       `json:"chunk,omitempty"`
+	Capacity       int       `json:"capacity,omitempty"` // bounded pipes: a response to a client that does not read stays pending in Write
 }
 
 var c16Toks = []string{"ok", "ok", "y2,ok", "sl100,ok", "sL100,ok", "sl1000,ok", "sL1000,ok", "sl5000,ok", "sL5000,ok", "sl10000,cx,ok", "sL10000,ok", "et", "ps", "sl2000,et"}
-var c16Phases = []string{"idle", "half", "request", "request", "request", "no-read", "pipeline", "gone", "two"}
+var c16Phases = []string{"idle", "half", "request", "request", "request", "no-read", "no-read-2", "pipeline", "gone", "two"}
 
 func genC16(g *simrt.Tape, tier string) any {
 	sc := &C16Sc{}
@@ -58,6 +59,7 @@ func genC16(g *simrt.Tape, tier string) any {
 		sc.AcceptLatePM = 300
 	}
 	sc.Chunk = []int{simnet.ChunkMax, simnet.ChunkRandom}[g.Draw(2)]
+	sc.Capacity = []int{0, 0, 16, 256}[g.Draw(4)]
 	return sc
 }
 
@@ -106,7 +108,7 @@ func execC16(x *X, scAny any) {
 			failAddr[fmt.Sprintf("k%d.s.peer", i)] = true
 		}
 	}
-	w.startServerWith(func(string) simnet.EP { return simnet.EP{Chunk: sc.Chunk} }, sc.AcceptLatePM, func(srv *kmipserver.Server) {
+	w.startServerWith(func(string) simnet.EP { return simnet.EP{Chunk: sc.Chunk, Capacity: sc.Capacity} }, sc.AcceptLatePM, func(srv *kmipserver.Server) {
 		srv.WithConnectHook(func(ctx context.Context) (context.Context, error) {
 			addr := kmipserver.RemoteAddr(ctx)
 			simrt.Yield("connect-hook")
@@ -145,7 +147,7 @@ func execC16(x *X, scAny any) {
 			for k := 0; k < cs.Yields; k++ {
 				s.YieldNow("client-dally")
 			}
-			conn, err := w.ln.Dial(fmt.Sprintf("k%d", i), simnet.EP{Chunk: sc.Chunk})
+			conn, err := w.ln.Dial(fmt.Sprintf("k%d", i), simnet.EP{Chunk: sc.Chunk, Capacity: sc.Capacity})
 			if err != nil {
 				cl.refused = true
 				return
@@ -198,9 +200,14 @@ func execC16(x *X, scAny any) {
 				_, _ = conn.Write(append(mk(0), mk(1)...))
 				cl.sent = 2
 				readAll()
-			case "no-read":
+			case "no-read", "no-read-2":
 				_, _ = conn.Write(mk(0))
 				cl.sent = 1
+				if cs.Phase == "no-read-2" {
+					// with bounded pipes the second response stays pending in the server's Write
+					_, _ = conn.Write(mk(1))
+					cl.sent = 2
+				}
 				s.WaitUntil("client-waits-for-peer-close", func() bool { return conn.PeerGone() || w.shutdownReturned })
 			case "gone":
 				_, _ = conn.Write(mk(0))
@@ -404,11 +411,14 @@ func execC16(x *X, scAny any) {
 
 func c16Floor(tier string) []*C16Sc {
 	var out []*C16Sc
-	for _, ph := range []string{"idle", "half", "request", "no-read", "pipeline", "gone", "two"} {
+	for _, ph := range []string{"idle", "half", "request", "no-read", "no-read-2", "pipeline", "gone", "two"} {
 		for _, tok := range []string{"ok", "sl1000,ok", "sL1000,ok", "sl10000,cx,ok", "sL5000,ok"} {
 			for _, ms := range []int{0, 500, 2000} {
 				for _, hf := range []bool{false, true} {
 					out = append(out, &C16Sc{Conns: []C16Conn{{Phase: ph, Tok: tok, HookFail: hf}, {Phase: "request", Tok: "ok", DelayMs: ms}}, ShutdownMs: 500})
+					if ph == "no-read" || ph == "no-read-2" || ph == "pipeline" {
+						out = append(out, &C16Sc{Conns: []C16Conn{{Phase: ph, Tok: tok, HookFail: hf}, {Phase: "request", Tok: "ok", DelayMs: ms}}, ShutdownMs: 500, Capacity: 16})
+					}
 				}
 			}
 		}
